@@ -111,7 +111,7 @@ func (n *ValueDeclarationNode) String() string {
 
 	if n.Initialiser != nil {
 		buff.WriteString(" = ")
-		buff.WriteString(n.Initialiser.String())
+		writeExpressionWithoutModifier(&buff, n.Initialiser)
 	}
 
 	return buff.String()
